@@ -72,7 +72,7 @@ def table_worker(part, zs):
         want, alt = interp.atom_rho(int(z), r32)
         e = relerr(got, want, alt)
         part.dev("table_rel", e)
-        if e > REL:
+        if not (e <= REL):
             k = int(np.argmax(np.abs(got - want) / np.maximum(want, 1e-30)))
             part.fail("table-value", "Z=%d: density at r=%.5f A is %.6g, tabulated interpolation gives %.6g (rel. err %.3g)" % (z, r[k], got[k], want[k], e), case)
         if (got < 0).any() or not np.all(np.isfinite(got)):
@@ -120,7 +120,7 @@ def config_worker(part, chunk, seed, full_motions_every):
         want, alt = interp.promolecule_rho(zs, s32, p32)
         e = relerr(got, want, alt)
         part.dev("sum_rel", e)
-        if e > REL:
+        if not (e <= REL):
             part.fail("sum-of-atoms", "density of %s at sites %s deviates from the sum of tabulated atomic densities (rel. err %.3g)" % (list(zs), list(sites_idx), e), case)
             continue
         if (got <= 0).any():
@@ -134,7 +134,7 @@ def config_worker(part, chunk, seed, full_motions_every):
             g2 = np.asarray(PromoleculeDensity((zs[list(perm)], sites[list(perm)])).rho(pts), dtype=np.float64)
             e = relerr(g2, got)
             part.dev("order_rel", e)
-            if e > 1e-5:
+            if not (e <= 1e-5):
                 part.fail("order-dependence", "density depends on the order of the atoms (rel. %.3g) for %s" % (e, list(zs)), case)
                 break
         # additivity + weights over every bipartition
@@ -147,7 +147,7 @@ def config_worker(part, chunk, seed, full_motions_every):
                 gb = np.asarray(PromoleculeDensity((zs[B], sites[B])).rho(pts), dtype=np.float64)
                 e = relerr(ga + gb, got)
                 part.dev("additivity_rel", e)
-                if e > 1e-5:
+                if not (e <= 1e-5):
                     part.fail("additivity", "rho(A u B) != rho(A) + rho(B) (rel. %.3g) for %s split %s" % (e, list(zs), A), case)
                 wa_ref, _ = interp.promolecule_rho(zs[A], s32[A], p32)
                 wb_ref, _ = interp.promolecule_rho(zs[B], s32[B], p32)
@@ -162,7 +162,7 @@ def config_worker(part, chunk, seed, full_motions_every):
                     wref = wa_ref / (wa_ref + wb_ref + bg)
                     dw = float(np.abs(w - wref).max())
                     part.dev("weight_abs", dw)
-                    if dw > 2e-4:
+                    if not (dw <= 2e-4):
                         part.fail("weight-value:bg=%g" % bg, "stockholder weight deviates by %.3g from interior/(interior+exterior+background) for %s | %s, background %g"
                                   % (dw, list(zs[A]), list(zs[B]), bg), case)
                     if not (w.min() >= 0) or not (w.max() <= 1 + 1e-6):
@@ -181,7 +181,7 @@ def config_worker(part, chunk, seed, full_motions_every):
             g2 = np.asarray(PromoleculeDensity((zs, s2)).rho(p2), dtype=np.float64)
             e = relerr(g2, got)
             part.dev("motion_rel", e)
-            if e > 5e-4:
+            if not (e <= 5e-4):
                 part.fail("rigid-motion", "density changes by %.3g (relative) under a rigid motion of atoms and points for %s" % (e, list(zs)), case)
                 break
         part.outcome((n, tuple(sorted(zs.tolist()))[:2]))
@@ -289,11 +289,11 @@ def far_worker(part, job):
             wref = ri[ok] / (ri[ok] + re_[ok])
             dw = float(np.abs(w[ok] - wref).max())
             part.dev("far_weight_abs", dw)
-            if dw > 2e-4:
+            if not (dw <= 2e-4):
                 k = int(np.argmax(np.abs(w[ok] - wref)))
                 part.fail("far:weight-value:" + how, "extended cluster (exterior atoms %s A away, %s): weight %.6f where interior/(interior+exterior) = %.6f at %s"
                           % (list(dists), how, w[ok][k], wref[k], np.round(pts[ok][k], 3)), case)
-            if np.nanmin(w) < 0 or np.nanmax(w) > 1 + 1e-6:
+            if np.nanmin(w) < 0 or not (np.nanmax(w) <= 1 + 1e-6):
                 part.fail("far:weight-range:" + how, "weight outside [0,1] in an extended cluster", case)
             if not (np.abs(w[ok] + w2[ok] - 1).max() <= 1e-5):
                 part.fail("far:weight-complement:" + how, "complementary weights of an extended cluster sum to %.6f at worst" % float((w[ok] + w2[ok])[np.argmax(np.abs(w[ok] + w2[ok] - 1))]), case)
@@ -301,7 +301,7 @@ def far_worker(part, job):
         got = np.asarray(PromoleculeDensity((np.concatenate([zi, ez]), allsites)).rho(pts), dtype=np.float64)
         e = relerr(got, ri + re_)
         part.dev("far_sum_rel", e)
-        if e > REL:
+        if not (e <= REL):
             part.fail("far:sum-of-atoms", "density of an extended cluster deviates from the sum of atomic densities (rel. %.3g)" % e, case)
     except Exception as ex:
         part.fail("far:raise", "extended cluster raised %r" % ex, case)
@@ -339,10 +339,10 @@ def cluster_worker(part, natoms):
     want, alt = interp.promolecule_rho(zs, sites.astype(np.float32).astype(np.float64), pts.astype(np.float32).astype(np.float64))
     e = relerr(got, want, alt)
     part.dev("cluster_sum_rel", e)
-    if e > REL:
+    if not (e <= REL):
         part.fail("cluster:sum-of-atoms", "density of a cluster of %d atoms deviates from the sum of tabulated atomic densities (rel. err %.3g)" % (natoms, e), case)
     e = relerr(ga + gb, got)
-    if e > 1e-5:
+    if not (e <= 1e-5):
         part.fail("cluster:additivity", "rho(A u B) != rho(A) + rho(B) (rel. %.3g) for a cluster of %d atoms split in two" % (e, natoms), case)
     part.outcome(("cluster", natoms > 4096))
 
@@ -373,7 +373,7 @@ def empty_exterior_worker(part, zi):
             ok = ri + bg > 1e-12
             wref = ri[ok] / (ri[ok] + bg)
             dw = float(np.abs(w[ok] - wref).max()) if ok.any() else 0.0
-            if dw > 2e-4:
+            if not (dw <= 2e-4):
                 part.fail("empty-exterior:weight:%s" % how, "no exterior atoms, background %g (%s): weight deviates by %.3g from interior/(interior+background)" % (bg, how, dw), case)
             part.outcome(("empty-exterior", how, bg > 0))
     part.nstates(1)
